@@ -17,6 +17,8 @@ CONSTANTS
   Dts <- Dt1
   MaxFails = 1
   D = 0
+  SlowFrom = "r3"
+  SlowTo = "r2"
 SPECIFICATION Spec
 VIEW viewE
 INVARIANT TypeOK
